@@ -1,7 +1,7 @@
 """C09 — PD is a square-law detector with unit DC gain and the documented noise powers."""
 ID = 'C09'
 FUNCTIONS = [('devices', 'PD'), ('devices', 'LPF'), ('typing', 'electrical_signal.abs'), ('typing', 'electrical_signal.power')]
-BOUNDS = {'records': '17 symbolic complex samples per polarisation (the shortest record the 4th-order filter accepts), one and two polarisations, '
+BOUNDS = {'records': '17 (quick) / 20 (thorough) symbolic complex samples per polarisation (17 is the shortest record the 4th-order filter accepts), one and two polarisations, '
                      'with and without optical noise',
           'parameters': 'r in (0,1], T >= 0, R_load > 0, i_dark >= 0, Fn >= 0 symbolic; BW/fs in {0.25} (quick) / {0.1, 0.25, 0.4} (thorough): '
                         'concrete Bessel design, filter matrix from the real scipy',
@@ -226,7 +226,7 @@ def configs(tier):
     q = tier == 'quick'
     out = []
     ratios = (0.25,) if q else (0.1, 0.25, 0.4)
-    L = 17
+    L = 17 if q else 20
     for ratio in ratios:
         for pol in (1, 2):
             for noise in (False, True):
